@@ -133,6 +133,8 @@ def build(jwk: dict, rep: str, extra: dict | None = None):
         return cls.import_key(gen.to_pem(jwk, private=False, der=True), params), False, None
     if rep == "pem-encrypted":
         pw = b"pw-" + os.urandom(4).hex().encode()
+        # passwords are octets: white space at either end belongs to them
+        pw = [pw, b" " + pw, pw + b"\n", b"\t" + pw + b"  ", pw + b"\r\n", b"\x0b" + pw][os.urandom(1)[0] % 6]
         return cls.import_key(gen.to_pem(jwk, password=pw), params, pw), True, pw
     if rep == "generated":
         if kty == "RSA":
